@@ -96,12 +96,21 @@ def cases(rng, tier):
             names.update([b"Name", b"DataType"] + [e[0] for e in col["extra"]])
         order = list(range(len(names))); rng.shuffle(order)
         dups = [rng.randint(0, 7) for _ in range(rng.choice([1, 1, 2]))] if rng.random() < 0.12 else []
+        if rng.random() < 0.1 and len(t["cols"]) >= 2:
+            from vlib import rand_elem as _re
+            dups = [(rng.randint(0, 7), "flip", lambda ty_: _re(rng, ty_))]     # the same name once with and once without a default, used by different columns
         e = G.encode_table(t, layouts=layouts, name_order=order if (rng.random() < 0.5 and not dups) else None, dup_names=dups)
         data = bytes(e.b)
         fields = [f for f in e.fields if f[0] not in ("bytes", "elem", "bits", "run")]
         if rng.random() < 0.6:
             data, _ = C05.mutate(rng, data, fields)
         yield Case("f%d" % i, ["in 1 %s" % hx(data), "session 1 *"], oracle=C05.oracle_session, meta={"foreign": True, "dist": {"kind": "foreign"}})
+
+
+def be_cases(rng, tier):
+    """library-written tables re-written in the big-endian configuration (decimals and every other fixed-size type included)"""
+    for i in range({"quick": 60, "thorough": 1500, "search": 40}[tier]):
+        yield roundtrip_case("be-t%d" % i, G.rand_table(rng, maxrows=20), rng, be=True)
 
 
 def followup(cases_, results, rng, tier):
